@@ -162,7 +162,7 @@ def eval_traces(ctx, tf, tfl, rng, n_cfg):
       else:
         inp = X if xdim_is_per_unit(what) else X
       inp = np.asarray(inp)
-      if what in ("PwlEval", "CatEval"):
+      if what in ("PwlEval", "PwlMissEval", "CatEval"):
         inp = X[:, :, 0]          # (B, U): one input column per unit
       y = layer(tf.constant(inp.astype(np.int32 if is_int else np.float32)))
       return np.asarray(y).reshape(X.shape[0], U)
@@ -177,6 +177,9 @@ def eval_traces(ctx, tf, tfl, rng, n_cfg):
         W = np.stack([p[:c["L"] * c["dims"] * c["terms"]].reshape(c["L"], c["dims"], c["terms"]) for p in ps])
         layer.kernel.assign(c07.to_var(c, W.astype(np.float32)))
         layer.scale.assign(np.stack([p[-c["terms"]:] for p in ps]).astype(np.float32))
+      elif what == "PwlMissEval":
+        layer.kernel.assign(P[:-1])
+        layer.missing_output.assign(P[-1:])
       elif what == "LinearEval":
         layer.kernel.assign(P[:-1])
         layer.bias.assign(P[-1] if len(ps) > 1 else np.float32(P[-1, 0]))
@@ -193,6 +196,9 @@ def eval_traces(ctx, tf, tfl, rng, n_cfg):
         pu = [params[i] for i in rng.integers(0, len(params), size=U)]
         B = int(rng.integers(1, 5))
         Xi = rng.integers(0, len(xs), size=(B, U))
+        if what == "PwlMissEval":      # a row in which exactly one unit sees the missing value
+          Xi[0, :] = rng.integers(1, len(xs), size=U)
+          Xi[0, rep % U] = 0
         X = np.stack([[xs[Xi[b, u]] for u in range(U)] for b in range(B)]).reshape(B, U, -1)
         y = call(pu, X)
         t.multi([keyof(pu[u], xs[Xi[b, u]]) for b in range(B) for u in range(U)],
@@ -217,6 +223,23 @@ def eval_traces(ctx, tf, tfl, rng, n_cfg):
       layer.build((None, U))
       return layer
     subject("PwlEval", {"layer": "pwl"}, mkp, len(kp), 1, lambda kp=kp: [rng.integers(0, 64 * int(kp[-1] + 1)) / 32.0])
+    # imputed missing value: xs[0] is the missing value, so a (batch x units) input has rows where only
+    # some of the units see it; missingness is per unit and per example
+    miss = float(rng.integers(0, 64 * int(kp[-1] + 1)) / 32.0)
+    first = [True]
+
+    def mkpm(U, kp=kp, miss=miss):
+      layer = tfl.layers.PWLCalibration(input_keypoints=[float(v) for v in kp], units=U, impute_missing=True,
+                                        missing_input_value=miss)
+      layer.build((None, U))
+      return layer
+
+    def xm(kp=kp, miss=miss, first=first):
+      if first[0]:
+        first[0] = False
+        return [miss]
+      return [rng.integers(0, 64 * int(kp[-1] + 1)) / 32.0]
+    subject("PwlMissEval", {"layer": "pwl", "missing": True}, mkpm, len(kp) + 1, 1, xm)
     nb = int(rng.integers(2, 6))
 
     def mkc(U, nb=nb):
